@@ -78,7 +78,9 @@ pub fn new(parameters: &RawParameters, ctx: &dyn Context) -> Result<Op, Error> {
         steps.push(Op::op(step_parameters, ctx)?);
     }
 
-    let params = ParsedParameters::new(parameters, &GAMUT)?;
+    // The text of a pipeline is a list of steps, not a parameter list: parsed as one, the
+    // name and the modifiers of its first and last steps would leak into the pipeline itself
+    let params = ParsedParameters::new(&parameters.next("pipeline"), &GAMUT)?;
     let fwd = InnerOp(pipeline_fwd);
     let inv = InnerOp(pipeline_inv);
     let descriptor = OpDescriptor::new(definition, fwd, Some(inv));
